@@ -162,12 +162,15 @@ pub fn plan(property: &str, tier: Tier) -> Option<Plan> {
         "C01" => {
             let a = ["C01"];
             jobs.push(g("c01/catalogue", "rel", if q { 6 } else { 8 }).armed(&a).congruence(if q { 2 } else { 3 }));
-            jobs.push(g("c01/grammar1", "rel", if q { 6 } else { 8 }).armed(&a));
+            jobs.push(g("c01/grammar1", "rel", if q { 5 } else { 8 }).armed(&a));
             jobs.push(g(if q { "c01/grammar2-repr" } else { "c01/grammar2" }, "rel", if q { 5 } else { 6 }).armed(&a));
             jobs.push(g("c01/reobserve", "rel", if q { 8 } else { 10 }).armed(&a));
             jobs.push(g("c01/reobserve2", "rel", if q { 8 } else { 10 }).armed(&a));
             jobs.push(g("c01/catalogue", "dbg", if q { 5 } else { 7 }).armed(&a));
-            jobs.push(g("shapes/binds", "rel", if q { 5 } else { 7 }).armed(&a));
+            if !q {
+                // (quick: the same shapes run as shapes/binds-started below, and unstarted in C02 / C03 / C05)
+                jobs.push(g("shapes/binds", "rel", 7).armed(&a));
+            }
             jobs.push(g("shapes/fanout", "rel", if q { 6 } else { 8 }).armed(&a));
             jobs.push(g("shapes/xp", "rel", if q { 6 } else { 8 }).armed(&a));
             jobs.push(g("c01/late", "rel", if q { 7 } else { 10 }).armed(&a));
